@@ -329,6 +329,10 @@ func init() {
 		}
 		r := newRng(*fSeed)
 		for i := 0; i < *fN; i++ {
+			if expired() {
+				hist["stopped at the deadline"] = 1
+				break
+			}
 			n := 2 + r.intn(3)
 			// a handful of keys; migrations concern their slots
 			var keys [][]byte
